@@ -108,7 +108,7 @@ func pathStr(p []int) string {
 
 func (c *Ctx) expandable(t types.Type) (*types.Struct, bool) {
 	st, ok := t.Underlying().(*types.Struct)
-	if !ok || isDecimal(t) || c.sortOf(t) == "U" {
+	if !ok || isDecimal(t) || isBuilder(t) || c.sortOf(t) == "U" {
 		return nil, false
 	}
 	return st, true
@@ -259,9 +259,17 @@ func isDecimal(t types.Type) bool {
 	return ok && n.Obj().Pkg() != nil && n.Obj().Pkg().Path() == "github.com/shopspring/decimal" && n.Obj().Name() == "Decimal"
 }
 
+func isBuilder(t types.Type) bool {
+	n, ok := t.(*types.Named)
+	return ok && n.Obj().Pkg() != nil && n.Obj().Pkg().Path() == "strings" && n.Obj().Name() == "Builder"
+}
+
 func (c *Ctx) sortOf(t types.Type) string {
 	if isDecimal(t) {
 		return "Real"
+	}
+	if isBuilder(t) {
+		return "Str" // a strings.Builder is the string it holds
 	}
 	if _, ok := t.Underlying().(*types.Interface); ok {
 		if !c.dts["Iface"] {
@@ -329,6 +337,9 @@ func (c *Ctx) sortOf(t types.Type) string {
 func (c *Ctx) zero(t types.Type) string {
 	if isDecimal(t) {
 		return "0.0"
+	}
+	if isBuilder(t) {
+		return c.strlit("")
 	}
 	if _, ok := t.Underlying().(*types.Interface); ok {
 		c.sortOf(t)
@@ -2146,7 +2157,7 @@ func (fr *Frame) step(st *State, in ssa.Instruction) bool {
 			_ = at
 			return true
 		}
-		if n, ok := elem.(*types.Named); ok && x.Heap {
+		if n, ok := elem.(*types.Named); ok && x.Heap && !isBuilder(n) {
 			if stt, ok := n.Underlying().(*types.Struct); ok && c.sortOf(n) != "U" {
 				r := fr.newRef(st, "new_"+n.Obj().Name())
 				for i := 0; i < stt.NumFields(); i++ {
@@ -2179,7 +2190,7 @@ func (fr *Frame) step(st *State, in ssa.Instruction) bool {
 			}
 		}
 		if av, isAddr := fr.addrs[x.Val]; isAddr {
-			if dst, ok := x.Addr.(*ssa.Alloc); ok && (av.Elem || av.Local == nil) {
+			if dst, ok := x.Addr.(*ssa.Alloc); ok && (av.Elem || av.Local == nil || (av.Root != nil && isBuilder(av.Root))) {
 				if fr.ptrCells == nil {
 					fr.ptrCells = map[*ssa.Alloc]Addr{}
 				}
@@ -2834,6 +2845,9 @@ func (fr *Frame) call(st *State, x *ssa.Call) bool {
 		fr.obligeAt(st, "safety.repeat", "call", fmt.Sprintf("(>= %s 0)", fr.val(x.Call.Args[1]).T), x.Pos())
 		r := c.fresh("repeated", "Str")
 		fr.assume(st, fmt.Sprintf("(= (slen %s) (* (slen %s) %s))", r, fr.val(x.Call.Args[0]).T, fr.val(x.Call.Args[1]).T))
+		// repeating a one-byte string: every byte of the result is that byte
+		c.n++
+		fr.assume(st, fmt.Sprintf("(=> (= (slen %s) 1) (forall ((i_q%d Int)) (! (=> (and (<= 0 i_q%d) (< i_q%d (slen %s))) (= (sat %s i_q%d) (sat %s 0))) :pattern ((sat %s i_q%d)))))", fr.val(x.Call.Args[0]).T, c.n, c.n, c.n, r, r, c.n, fr.val(x.Call.Args[0]).T, r, c.n))
 		setRes(Val{r, x.Type()})
 		return true
 	case "(github.com/shopspring/decimal.Decimal).IsZero":
@@ -2981,6 +2995,36 @@ func (fr *Frame) call(st *State, x *ssa.Call) bool {
 	case "unicode.IsLetter":
 		setRes(Val{fmt.Sprintf("(unicodeIsLetter %s)", fr.val(x.Call.Args[0]).T), x.Type()})
 		return true
+	case "(*strings.Builder).WriteString", "(*strings.Builder).WriteByte", "(*strings.Builder).WriteRune", "(*strings.Builder).String", "(*strings.Builder).Len", "(*strings.Builder).Grow":
+		if a, ok := fr.addrOf(st, x.Call.Args[0]); ok {
+			cur := fr.load0(st, a, x.Pos())
+			bt := x.Call.Args[0].Type().Underlying().(*types.Pointer).Elem()
+			upd := func(t string) { fr.store(st, a, Val{t, bt}, x.Pos()) }
+			switch full {
+			case "(*strings.Builder).WriteString":
+				arg := fr.val(x.Call.Args[1])
+				upd(fmt.Sprintf("(sconcat %s %s)", cur.T, arg.T))
+				setRes(Val{fmt.Sprintf("(slen %s)", arg.T), types.Typ[types.Int]}, Val{"ifnil", x.Call.Signature().Results().At(1).Type()})
+			case "(*strings.Builder).WriteByte":
+				arg := fr.val(x.Call.Args[1])
+				upd(fmt.Sprintf("(sconcat %s (str1 %s))", cur.T, arg.T))
+				c.sortOf(x.Call.Signature().Results().At(0).Type())
+				setRes(Val{"ifnil", x.Call.Signature().Results().At(0).Type()})
+			case "(*strings.Builder).WriteRune":
+				arg := fr.val(x.Call.Args[1])
+				upd(fmt.Sprintf("(sconcat %s (strofrune %s))", cur.T, arg.T))
+				setRes(Val{fmt.Sprintf("(slen (strofrune %s))", arg.T), types.Typ[types.Int]}, Val{"ifnil", x.Call.Signature().Results().At(1).Type()})
+			case "(*strings.Builder).String":
+				setRes(Val{cur.T, types.Typ[types.String]})
+			case "(*strings.Builder).Len":
+				setRes(Val{fmt.Sprintf("(slen %s)", cur.T), types.Typ[types.Int]})
+			case "(*strings.Builder).Grow":
+			}
+			if tu := x.Call.Signature().Results(); tu != nil && tu.Len() == 2 {
+				c.sortOf(tu.At(1).Type())
+			}
+			return true
+		}
 	case "strconv.Atoi":
 		// decimal parsing: a function of the string (atoiok: it is a decimal integer in range; atoival: its value)
 		c.sortOf(x.Call.Signature().Results().At(1).Type()) // declares the interface sort
